@@ -191,7 +191,7 @@ static void FN (translate_out) (FN (ent) *e, vf_rng *rng)
     REG_T tmp; RP (init) (&tmp);
     if (!RP (copy) (&tmp, &e->reg)) { RP (fini) (&tmp); return; }
     int64_t dx, dy;
-    int kind = (int)(vf_next (rng) % 6);
+    int kind = (int)(vf_next (rng) % 9);
     int64_t span = CMAX - CMIN;
     switch (kind) {
     case 0: dx = vf_range (rng, -3, 3); dy = vf_range (rng, -3, 3); break;
@@ -199,6 +199,9 @@ static void FN (translate_out) (FN (ent) *e, vf_rng *rng)
     case 2: dx = vf_range (rng, -2, 2); dy = CMIN - win_y - vf_range (rng, -4, WIN + 4); break;            /* partly past -y */
     case 3: dx = CMIN - win_x - vf_range (rng, -4, WIN + 4); dy = CMAX - (win_y + WIN) + vf_range (rng, -4, WIN + 4); break;
     case 4: dx = vf_chance (rng, 1, 2) ? span : -span; dy = vf_range (rng, -100, 100); break;             /* wholly out */
+    case 6: dx = CMIN - win_x - vf_range (rng, -4, WIN + 4); dy = vf_range (rng, -2, 2); break;              /* partly past -x only */
+    case 7: dx = vf_range (rng, -2, 2); dy = CMAX - (win_y + WIN) + vf_range (rng, -4, WIN + 4); break;      /* partly past +y only */
+    case 8: dx = CMAX - (win_x + WIN) + vf_range (rng, -4, WIN + 4); dy = CMIN - win_y - vf_range (rng, -4, WIN + 4); break;   /* past +x and -y */
     default: dx = vf_range (rng, -span, span); dy = vf_range (rng, -span, span); break;
     }
     if (dx > INT32_MAX) dx = INT32_MAX;
@@ -279,6 +282,16 @@ static void FN (translate_out) (FN (ent) *e, vf_rng *rng)
             vf_violation (key, "translate by (%lld,%lld) of window (%lld,%lld) leaves %d rects, canonical form of the same points has %d",
                           (long long)dx, (long long)dy, (long long)win_x, (long long)win_y, n, nc);
         }
+    }
+    /* whatever points it holds: the list itself must be well formed (C06: rectangles non-empty, banded, ordered) */
+    if (bad && FOCUS ("C06")) {
+        int malformed = 0; vf_count ("evaluations", 1);
+        for (int i = 0; i < n && !malformed; i++) {
+            if (r[i].x1 >= r[i].x2 || r[i].y1 >= r[i].y2) malformed = 1;
+            if (i && (r[i].y1 < r[i - 1].y1 || (r[i].y1 == r[i - 1].y1 && (r[i].y2 != r[i - 1].y2 || r[i].x1 <= r[i - 1].x2)) || (r[i].y1 > r[i - 1].y1 && r[i].y1 < r[i - 1].y2))) malformed = 1;
+        }
+        if (malformed) { char key[100]; snprintf (key, sizeof key, "C06:malformed-list:translate%s:%d", clipped ? "-clipped" : "", SUF);
+            vf_violation (key, "translate by (%lld,%lld) of window (%lld,%lld) leaves a list of %d rectangles that is not banded / ordered / non-empty", (long long)dx, (long long)dy, (long long)win_x, (long long)win_y, n); }
     }
     /* an empty result is the canonical empty region: no list, extents an empty box (C06 "extents equal to the tight bounding box") */
     if (!bad && FOCUS ("C06")) {
